@@ -16,6 +16,7 @@ import IgrisModel.C01.More
 import IgrisModel.C01.Ext3
 import IgrisModel.C01.Ext4
 import IgrisModel.C01.Ext5
+import IgrisModel.C01.Ext6
 namespace Igris.C01
 
 /-- a history of the reference semantics -/
@@ -995,5 +996,130 @@ theorem wrap_comparator (a b : BitVec 8) :
   refine ⟨?_, by decide⟩
   have : ∀ d : BitVec 8, (decide (d.toInt < 0) = true ↔ 128 ≤ d.toNat) := by decide
   exact this (a - b)
+
+/-! ### Extension round 3b: the repaired `dlist_is_correct` / `is_correct()`, the closed-form ring -/
+
+/-- THE REPAIRED `dlist_is_correct(head)` (one walk testing `it->next->prev == it`, at most 1000 iterations)
+on ANY heap — hand-corrupted or not — is true EXACTLY when `head` is on a well-formed ring (nodes pairwise
+different, `next` closes the cycle, every successor points back) of fewer than 1000 elements besides it.
+The right-hand side is the specification predicate of the whole development (`IsRing`), not the walk. -/
+theorem is_correct_strict_iff (h : Heap) (hd : Nat) :
+    dlistIsCorrectStrict h hd = true ↔ ∃ xs, xs.length < 1000 ∧ IsRing h hd xs :=
+  isCorrectWalk_iff h hd 1000
+
+/-- the C++ `is_correct()` after the repair (the same walk without a bound; `fuel` = the model's loop bound):
+for EVERY fuel it returns, and answers true exactly on the well-formed rings of fewer than `fuel` elements -/
+theorem cpp_is_correct_strict_iff (h : Heap) (fuel l : Nat) :
+    cppIsCorrectStrict h fuel l = true ↔ ∃ xs, xs.length < fuel ∧ IsRing h l xs :=
+  isCorrectWalk_iff h l fuel
+
+/-- on a realised family the repaired function answers "fewer than 1000 elements" — both directions, so the
+answers `is_correct_on_rings` / `is_correct_false_on_long_rings` gave for the old code are unchanged -/
+theorem is_correct_strict_on_rings {h : Heap} {A : Rings} {hd : Nat} {xs : List Nat} (ok : RingsOK h A)
+    (hm : (hd :: xs) ∈ A) : dlistIsCorrectStrict h hd = decide (xs.length < 1000) := by
+  obtain ⟨a, ys, e, r⟩ := ok.ring _ hm
+  injection e with e1 e2; subst e1; subst e2
+  by_cases hl : xs.length < 1000
+  · simp only [hl, decide_true]
+    exact (is_correct_strict_iff h hd).mpr ⟨xs, hl, r⟩
+  · simp only [hl, decide_false]
+    cases hc : dlistIsCorrectStrict h hd with
+    | false => rfl
+    | true =>
+      obtain ⟨zs, hz, rz⟩ := (is_correct_strict_iff h hd).mp hc
+      have := IsRing.length_unique r rz
+      omega
+
+/-- what the old code accepted and what made `circular_size()` hang is rejected now: the four-node heap whose
+backward links are a copy of the forward links, and the lasso `0 → 1 → 1 → …` for EVERY loop bound (the
+repaired C++ walk returns false at its second step instead of running forever) -/
+theorem is_correct_strict_rejects_witness :
+    dlistIsCorrect corrupt4 0 = true ∧ dlistIsCorrectStrict corrupt4 0 = false ∧
+    ∀ fuel, cppIsCorrectStrict lassoHeap fuel 0 = false := by
+  refine ⟨by decide, by decide, ?_⟩
+  intro fuel
+  cases fuel with
+  | zero => rfl
+  | succ n =>
+    cases n with
+    | zero => simp [cppIsCorrectStrict, isCorrectWalk, lassoHeap]
+    | succ m => simp [cppIsCorrectStrict, isCorrectWalk, lassoHeap]
+
+/-- the closed-form ring `ringHeap n` the driver uses for `reset R n` (up to 10^6 nodes) IS the well-formed
+ring head 0, elements 1, …, n-1 — proved, no longer only tied by the dumped small sizes -/
+theorem ring_heap_is_ring (n : Nat) (hn : 0 < n) : IsRing (ringHeap n) 0 (List.range' 1 (n - 1)) :=
+  ringHeap_isRing n hn
+
+example : dlistIsCorrectStrict (ringHeap 5) 0 = true := by decide
+example : ∃ xs, xs.length < 1000 ∧ IsRing (ringHeap 5) 0 xs := ⟨_, by decide, ring_heap_is_ring 5 (by decide)⟩
+
+/-- TWO LIST HEADS IN ONE RING SPLICED INTO EACH OTHER (`l.unlink_and_move_all_nodes_from_other(oth)` with `l` and
+`oth` members of the same ring, `l ≠ oth` — the case that was outside `AStep`): the call IS the two admitted calls
+`l.unlink()` followed by the splice into the now empty `l` (because `unlink()` is idempotent, on every heap), so it is
+covered by `run_refines`: `l` takes over every other node of the ring in the order that starts after `oth`, `oth`
+ends up empty. -/
+theorem splice_same_ring {h : Heap} {A : Rings} {l oth y : Nat} {pre post ys : List Nat} {B : Rings}
+    (ok : RingsOK h A) (sm : Same A ((l :: (pre ++ oth :: post)) :: B)) (hne : post ++ pre = y :: ys) :
+    listSplice h l oth = run h [.xunlink l, .xsplice l oth] ∧
+    ARun A [.xunlink l, .xsplice l oth] ([oth] :: (l :: y :: ys) :: B) ∧
+    RingsOK (listSplice h l oth) ([oth] :: (l :: y :: ys) :: B) := by
+  have e1 : listSplice h l oth = run h [.xunlink l, .xsplice l oth] := by
+    simp only [run, List.foldl, exec, listSplice, nodeUnlink_idem]
+  obtain ⟨x, xs, e⟩ : ∃ x xs, pre ++ oth :: post = x :: xs := by cases pre <;> simp
+  have st1 : AStep A (.xunlink l) ([l] :: (x :: xs) :: B) := .xunlink (by rw [← e]; exact sm)
+  have sm2 : Same ([l] :: (x :: xs) :: B) ([l] :: (oth :: y :: ys) :: B) := by
+    rw [← e, ← hne]
+    exact .trans (.perm (List.Perm.swap _ _ _)) (.trans .rot (.perm (List.Perm.swap _ _ _)))
+  have st2 : AStep ([l] :: (x :: xs) :: B) (.xsplice l oth) ([oth] :: (l :: y :: ys) :: B) := .xspliceIntoEmpty sm2
+  have ar : ARun A [.xunlink l, .xsplice l oth] ([oth] :: (l :: y :: ys) :: B) := .cons st1 (.cons st2 (.nil _))
+  exact ⟨e1, ar, e1 ▸ run_refines ok ar⟩
+
+/-- the same when `l` and `oth` are the only two nodes of the ring: both lists are empty afterwards -/
+theorem splice_same_ring_two {h : Heap} {A : Rings} {l oth : Nat} {B : Rings}
+    (ok : RingsOK h A) (sm : Same A ([l, oth] :: B)) :
+    listSplice h l oth = run h [.xunlink l, .xsplice l oth] ∧
+    RingsOK (listSplice h l oth) ([l] :: [oth] :: B) := by
+  have e1 : listSplice h l oth = run h [.xunlink l, .xsplice l oth] := by
+    simp only [run, List.foldl, exec, listSplice, nodeUnlink_idem]
+  have ar : ARun A [.xunlink l, .xsplice l oth] ([l] :: [oth] :: B) :=
+    .cons (.xunlink sm) (.cons (.xspliceBothEmpty (.refl _)) (.nil _))
+  exact ⟨e1, e1 ▸ run_refines ok ar⟩
+
+-- non-vacuity: heads 0 and 3 in the ring 0 1 2 3 4: list 0 takes 4 1 2, list 3 is empty
+example : ARun [[0, 1, 2, 3, 4]] [.xunlink 0, .xsplice 0 3] [[3], [0, 4, 1, 2]] := by
+  have := (splice_same_ring (h := ringHeap 5) (A := [[0, 1, 2, 3, 4]]) (l := 0) (oth := 3) (pre := [1, 2]) (post := [4])
+    (y := 4) (ys := [1, 2]) (B := []) ⟨by
+      intro r hr; simp at hr; subst hr
+      exact ⟨0, [1, 2, 3, 4], rfl, ring_heap_is_ring 5 (by decide)⟩, by simp⟩ (.refl _) rfl).2.1
+  exact this
+
+/-- EVERY well-formed family of non-empty rings (each ring without repetition, rings pairwise disjoint) is realised
+by some heap — `RingsOK` is inhabited for every such family, not only for the examples (the heap is built with
+`dlist_init` and `dlist_add_prev`, i.e. by admitted calls) -/
+theorem wf_family_is_realised (A : Rings) (wf : RingsWF A) (ne : ∀ r ∈ A, r ≠ []) : ∃ h, RingsOK h A :=
+  wf_realised A wf ne
+
+/-- PRESERVATION OF WELL-FORMEDNESS BY THE REFERENCE SEMANTICS, STATED ON THE FAMILIES ALONE (no heap in the
+statement): a step of `AStep` — any of its rules, every aliasing case — takes a family of pairwise disjoint,
+repetition-free, non-empty rings to such a family -/
+theorem astep_preserves_wf {A A' : Rings} {op : Op} (wf : RingsWF A) (ne : ∀ r ∈ A, r ≠ []) (st : AStep A op A') :
+    RingsWF A' ∧ ∀ r ∈ A', r ≠ [] := by
+  obtain ⟨h, ok⟩ := wf_realised A wf ne
+  have ok' := step_refines ok st
+  refine ⟨ok'.wf, fun r hr e => ?_⟩
+  obtain ⟨a, xs, e', _⟩ := ok'.ring r hr
+  rw [e] at e'; cases e'
+
+/-- … and so does every admitted history -/
+theorem arun_preserves_wf {A A' : Rings} {ops : List Op} (wf : RingsWF A) (ne : ∀ r ∈ A, r ≠ []) (r : ARun A ops A') :
+    RingsWF A' ∧ ∀ r ∈ A', r ≠ [] := by
+  induction r with
+  | nil => exact ⟨wf, ne⟩
+  | cons st _ ih => obtain ⟨w, n⟩ := astep_preserves_wf wf ne st; exact ih w n
+
+example : RingsWF [[3], [0, 4, 1, 2]] :=
+  (arun_preserves_wf (A := [[0, 1, 2, 3, 4]]) ⟨by simp, by simp⟩ (by simp)
+    (.cons (.xunlink (.refl _)) (.cons (.xspliceIntoEmpty (l := 0) (oth := 3) (y := 4) (ys := [1, 2]) (B := [])
+      (.trans (.perm (List.Perm.swap _ _ _)) (.trans (.rot (l1 := [1, 2]) (b := 3) (l2 := [4])) (.perm (List.Perm.swap _ _ _))))) (.nil _)))).1
 
 end Igris.C01
